@@ -695,7 +695,7 @@ Lemma flush_good W st m st1 m2 :
   in_pos (mi_inner m) = length (w_full W (mi_key m)) ->
   flush st m = (st1, m2) ->
   Inv W st1 /\ st_iters st1 = st_iters st /\ st_sf st1 = st_sf st /\ miss_good W (mi_finish m2) /\
-  mi_key m2 = mi_key m /\ mi_out m2 = mi_out m /\ mi_var m2 = mi_var m.
+  mi_key m2 = mi_key m /\ mi_out m2 = mi_out m /\ mi_var m2 = mi_var m /\ mi_closing m2 = true.
 Proof.
   intros HI Hg Hcl Hph Hpos H.
   destruct m as [v k mk kf mx inn buf recs cl ini ph o]. simpl in *. subst cl.
@@ -706,7 +706,7 @@ Proof.
   assert (Hrest : forall st' b' r', Inv W st' -> st_iters st' = st_iters st -> st_sf st' = st_sf st ->
      Inv W st' /\ st_iters st' = st_iters st /\ st_sf st' = st_sf st /\
      miss_good W (mi_finish (mkMI v k mk kf mx inn b' r' true ini ph o)) /\
-     k = k /\ o = o /\ v = v).
+     k = k /\ o = o /\ v = v /\ true = true).
   { intros st' b' r' H1 H2 H3. split; [exact H1|]. split; [exact H2|]. split; [exact H3|].
     split; [apply Hfin|]. auto. }
   destruct v; destruct buf as [b|].
@@ -765,6 +765,7 @@ Proof.
   - (* PBgInit *)
     assert (Ec : cl = true) by (destruct cl; [reflexivity|]; destruct Hcl as [Hcl _]; discriminate (Hcl eq_refl)).
     subst cl.
+    assert (Hns : in_stopped inn = false) by (apply Hst; discriminate).
     destruct v.
     + destruct (find_in_cache V1 (st_cache st) (st_inval st) k mk) as [found c'] eqn:Ef.
       destruct HI as (Hc & Hw & Hi).
@@ -776,7 +777,7 @@ Proof.
       * destruct (is_invalid_at (st_inval st) ini mk); simpl.
         -- split; [apply Inv_set_iter; [assumption|apply Hfin; assumption]|].
            frame_with (mi_finish (mkMI V1 k mk kf mx inn None recs true ini PBgInit o)).
-        -- unfold mi_set_recs at 1; simpl.
+        -- unfold mi_set_recs; simpl.
            set (m0 := mkMI V1 k mk kf mx inn buf [] true ini PBgInit o).
            destruct (fold_add_spec (match buf with Some b => b | None => [] end) m0) as (Hs & Hb).
            simpl in Hs, Hb.
@@ -797,7 +798,6 @@ Proof.
                                (mkMI V2 k mk kf mx inn buf recs true ini PBgInit o)).
       { split.
         - apply Inv_set_iter; [assumption|]. simpl. apply miss_good_bg; auto; try discriminate.
-          unfold buf_good in *; simpl in *. destruct buf; auto.
         - frame_with (mkMI V2 k mk kf mx inn buf recs true ini PBgHead o). }
       destruct (alist_get k (st_cache st)) as [[r0 t0|m0 t0]|]; simpl; try exact Hhead.
       split; [apply Inv_set_iter; [assumption|apply Hfin; assumption]|].
@@ -836,7 +836,7 @@ Proof.
     destruct (flush st (mi_set_inner mm inn')) as [st1 m2] eqn:Efl.
     destruct (flush_good W st _ st1 m2 HI (Hg1 PBgHead (or_introl eq_refl)) eq_refl (or_introl eq_refl)
                          ltac:(simpl; rewrite Hp; exact Hd) Efl)
-      as (HI1 & Hit1 & _ & Hg2 & Hk2 & Ho2 & Hv2).
+      as (HI1 & Hit1 & _ & Hg2 & Hk2 & Ho2 & Hv2 & Hc2).
     simpl. split; [apply Inv_set_iter; assumption|].
     exists (mi_finish m2). simpl. rewrite Hit1. simpl in *. auto.
   - (* PBgWait *)
@@ -893,7 +893,7 @@ Proof.
       destruct (flush st (mi_set_inner mm inn')) as [st1 m2] eqn:Efl.
       destruct (flush_good W st _ st1 m2 HI Hg1 eq_refl (or_intror eq_refl)
                            ltac:(simpl; rewrite Hp; exact Hd) Efl)
-        as (HI1 & Hit1 & _ & Hg2 & Hk2 & Ho2 & Hv2).
+        as (HI1 & Hit1 & _ & Hg2 & Hk2 & Ho2 & Hv2 & Hc2).
       simpl. split; [apply Inv_set_iter; [apply Inv_release_sf; assumption|assumption]|].
       exists (mi_finish m2). simpl. rewrite release_sf_iters, Hit1. simpl in *. auto.
     + (* error *)
